@@ -133,7 +133,7 @@ def _check_history(ctx, c, model, loss, lineup, proposals, snapshots, E, N, D, r
     snapshots.append((rows, c.params_samp.copy(), c.losses_samp.copy(), c.series_samp.copy(), c.batch_num_samp.copy(), c.method_samp.copy()))
 
 
-def case(name, sizes, E, N, D, calls, n_jobs, sort, xgb=False):
+def case(name, sizes, E, N, D, calls, n_jobs, sort, xgb=False, conv=None):
     P = 1
 
     def body(ctx):
@@ -183,11 +183,12 @@ def case(name, sizes, E, N, D, calls, n_jobs, sort, xgb=False):
                 lineup.append(xs)
             real = np.zeros((N, D))
             c = cal.Calibrator(loss_function=loss, real_data=real, model=rec_model, parameters_bounds=[[0.0] * P, [1.0] * P],
-                               parameters_precision=[0.25] * P, ensemble_size=E, samplers=lineup, verbose=False, random_state=ctx.int("seed", 0), n_jobs=n_jobs)
+                               parameters_precision=[0.25] * P, ensemble_size=E, samplers=lineup, convergence_precision=conv, verbose=False, random_state=ctx.int("seed", 0), n_jobs=n_jobs)
             snapshots = []
             for nb in calls:
-                for _ in range(nb) if not sort else [0]:
-                    ret = c.calibrate(1 if not sort else nb)
+                for _ in range(nb) if not (sort or conv is not None) else [0]:
+                    # with a convergence precision the call may stop early (forks on the symbolic losses)
+                    ret = c.calibrate(1 if not (sort or conv is not None) else nb)
                     _check_history(ctx, c, rec_model, loss, lineup, proposals, snapshots, E, N, D, real)
                 rp, rl = ret
                 rows = len(c.losses_samp)
@@ -211,7 +212,7 @@ def case(name, sizes, E, N, D, calls, n_jobs, sort, xgb=False):
             ctx.sample({"case": name, "rows": len(c.losses_samp), "model_runs": len(rec_model.calls)})
 
     def replay(cex):
-        return replay_concrete(sizes, E, N, D, calls, n_jobs, xgb, cex.values)
+        return replay_concrete(sizes, E, N, D, calls, n_jobs, xgb, cex.values, conv)
 
     return Case(name, body, replay, time_budget=240)
 
@@ -235,7 +236,7 @@ class _PS(BaseSampler):
         return out
 
 
-def replay_concrete(sizes, E, N, D, calls, n_jobs, xgb, values):
+def replay_concrete(sizes, E, N, D, calls, n_jobs, xgb, values, conv=None):
     """Real calibrator with a deterministic recording model; losses scripted from the model when available."""
     runs = []
 
@@ -260,15 +261,20 @@ def replay_concrete(sizes, E, N, D, calls, n_jobs, xgb, values):
 
         lineup.append(XGBoostSampler(batch_size=1, candidate_pool_size=4, max_deduplication_passes=0, random_state=0))
     c = cal.Calibrator(loss_function=_SumLoss(), real_data=np.zeros((N, D)), model=model, parameters_bounds=[[0.0], [1.0]], parameters_precision=[0.25],
-                       ensemble_size=E, samplers=lineup, verbose=False, random_state=int(values.get("seed") or 0) % 2**32, n_jobs=1)
+                       ensemble_size=E, samplers=lineup, convergence_precision=conv, verbose=False, random_state=int(values.get("seed") or 0) % 2**32, n_jobs=1)
     msgs = []
     snaps = []
     with warnings.catch_warnings():
         warnings.simplefilter("ignore")
         for nb in calls:
-            for _ in range(nb):
-                rp, rl = c.calibrate(1)
+            for _ in (range(nb) if conv is None else [0]):
+                rp, rl = c.calibrate(1 if conv is None else nb)
                 rows = c.n_sampled_params
+                # batch labels: consecutive from 0, constant within a batch (a batch = one sampler call)
+                starts = np.cumsum([0] + [len(o) for s_ in lineup if hasattr(s_, "outs") for o in []])
+                labs = list(c.batch_num_samp)
+                if labs and (labs[0] != 0 or any(b - a not in (0, 1) for a, b in zip(labs, labs[1:])) or len(set(labs)) != c.current_batch_index):
+                    msgs.append(f"batch labels {labs} are not the consecutive indices of the {c.current_batch_index} batches run")
                 lens = [len(c.params_samp), len(c.losses_samp), len(c.series_samp), len(c.batch_num_samp), len(c.method_samp)]
                 if any(x != rows for x in lens) or c.series_samp.shape != (rows, E, N, D):
                     msgs.append(f"lengths {lens} vs counter {rows}, series shape {c.series_samp.shape}")
@@ -305,6 +311,7 @@ def cases(tier, seed):
     cs.append(case("sort-B2-E1-2batches", [2], 1, 1, 1, [2], 1, True))
     cs.append(case("sort-B1B2-E2-3rows", [1, 2], 2, 1, 1, [2], 2, True))
     cs.append(case("xgb-lent-history", [2], 1, 1, 1, [2, 1], 1, False, xgb=True))
+    cs.append(case("converge-then-continue", [1, 2], 1, 1, 1, [2, 1, 1], 1, False, conv=0))
     if tier == "thorough":
         cs.append(case("three-B1B2B3-E2", [1, 2, 3], 2, 2, 1, [3, 1], 2, False))
         cs.append(case("sort-B2B1-E1-5rows", [2, 1], 1, 1, 1, [3], 1, True))
